@@ -1418,7 +1418,9 @@ fn c16_script(rng: &mut Rng) -> Script {
         2 => {} // plain end of input after a complete line
         _ => {
             // end of input in the middle of a line that produces no output whichever way it is read
-            let tail: &[u8] = *rng.pick(&[&b"isrea"[..], &b"position startpos"[..], &b"xq_unfinished"[..], &b"ucinewgame"[..], &b"   "[..]]);
+            // (a position command with a move list: whether the unterminated line is carried out or dropped,
+            // nothing is printed — but a reader that loses its last character would try to play 'e2e' or 'g8f')
+            let tail: &[u8] = *rng.pick(&[&b"isrea"[..], &b"position startpos"[..], &b"xq_unfinished"[..], &b"ucinewgame"[..], &b"   "[..], &b"position startpos moves e2e4"[..], &b"position startpos moves e2e4 e7e5 g1f3 g8f6"[..], &b"position fen 4k3/8/8/8/8/8/4P3/4K3 w - - 0 1 moves e2e4"[..]]);
             bytes.extend_from_slice(tail);
             shown.push(format!("{} <end of input without newline>", String::from_utf8_lossy(tail)));
             ends_mid_line = true;
